@@ -1207,4 +1207,4 @@ def main(ctx):
     for dpt in (1, 10, 20):
         hh = htm.HTM(dpt)
         hspecs["lookup_id(depth=%d)" % dpt] = (sky_base, (lambda ra, dec, h=hh: h.lookup_id(ra, dec)))
-    tiled_elementwise(ctx, "long-arrays", hspecs, marks(ctx))
+    tiled_elementwise(ctx, "long-arrays", hspecs, marks(ctx), harvest=([__import__("esutil.htm.htm", fromlist=["x"])], ["htm"]))
